@@ -521,7 +521,7 @@ Proof.
 Qed.
 
 Lemma cfg_trig_inv2 d s ts' :
-  Inv2 d s -> ts_emulti ts' = false -> Inv2 (cfg_trig d ts') (new_epoch F0 s (s_npre s) (s_nsamp s) ts').
+  Inv2 d s -> ts_emulti ts' = false -> Inv2 (cfg_trig_do d ts') (new_epoch F0 s (s_npre s) (s_nsamp s) ts').
 Proof.
   intros HI HQ1. pose proof HI as [H1 H2 H3 H4 _ [HH0 [HH1 [HH2 _]]] _ _ _ _ _ _ _ _ _].
   pose proof H1 as [_ Hp3 _ _ _ _ _].
@@ -533,21 +533,39 @@ Proof.
   - repeat split; assumption.
 Qed.
 
+(* ConfigureTrigger as a whole: a refused request leaves model state and checker state alone *)
+Lemma cfg_trig_step2 d s ts' :
+  Inv2 d s -> (ts_emulti ts' = true -> max_nsamp < ts_emt_nmono ts') ->
+  Inv2 (fst (cfg_trig d ts')) (if snd (cfg_trig d ts') then s else new_epoch F0 s (s_npre s) (s_nsamp s) ts').
+Proof.
+  intros HI HQ. pose proof HI as [H1 _ _ _ _ _ _ _ _ _ _ _ _ _ _]. pose proof H1 as [_ Hp3 Hs1 Hmx _ _ _].
+  destruct (cfg_trig_cases d ts' Hp3 Hs1 Hmx HQ) as [[He ->]|[He ->]]; cbn [fst snd]; [exact HI|].
+  apply cfg_trig_inv2; assumption.
+Qed.
+
+(* re-installing the lengths already in force changes nothing the invariant looks at *)
+Lemma same_len_inv2 d s :
+  Inv2 d s ->
+  Inv2 (mkdsp (d_nsamp d) (d_npre d) (d_last d) (d_stream d) (d_ts d) (s32 (d_nsamp d)) (s32 (d_npre d))) s.
+Proof.
+  intros [H1 H2 H3 H4 H5 H6 H7 H8 H9 H10 H11 H12 H13 H14 H15]. split; try assumption.
+  destruct H1 as [A1 A2 A3 A4 A5 A6 A7]. split; cbn; try assumption.
+  apply s32_small. unfold max_nsamp in A4. lia.
+Qed.
+
 Lemma cfg_len_inv2 d s nsamp' npre' :
   Inv2 d s -> nsamp' <= max_nsamp ->
-  Inv2 (fst (cfg_len d nsamp' npre'))
-       (if lengths_ok npre' nsamp' then new_epoch F0 s npre' nsamp' (s_ts s)
-        else new_epoch F0 s (s_npre s) (s_nsamp s) (s_ts s)).
+  Inv2 (fst (cfg_len d nsamp' npre')) (if lengths_ok npre' nsamp' then accepted_len F0 s nsamp' npre' else s).
 Proof.
   intros HI HQ1. pose proof HI as [H1 H2 H3 H4 _ [HH0 [HH1 [HH2 _]]] _ H8 H9 H10 _ _ _ _ _].
   unfold s_A in H9.
-  unfold cfg_len. destruct (lengths_ok npre' nsamp') eqn:El; cbn [fst].
+  unfold cfg_len. destruct (lengths_ok npre' nsamp') eqn:El; cbn [fst]; [|exact HI].
+  unfold accepted_len. destruct ((nsamp' =? s_nsamp s) && (npre' =? s_npre s)) eqn:Es.
+  - assert (nsamp' = d_nsamp d) by lia. assert (npre' = d_npre d) by lia. subst nsamp' npre'.
+    apply same_len_inv2. exact HI.
   - apply epoch_start_inv2; try assumption; try reflexivity.
     + pose proof (cfg_len_inv1 F0 p d (s_G s) nsamp' npre' H1 HQ1 El) as Hx. unfold cfg_len in Hx. now rewrite El in Hx.
     + cbn. lia.
-    + repeat split; assumption.
-  - apply epoch_start_inv2; try assumption.
-    + lia.
     + repeat split; assumption.
 Qed.
 
@@ -563,7 +581,7 @@ Proof.
   - intros d s sg HI [HQ1 HQ2] Hf. cbn [op_ok] in HQ1.
     destruct (block_step d s sg HI HQ1 HQ2 Hf) as [d' [recs H]]. exists d', recs. exact H.
   - intros d s ts' HI [HQ1 _]. cbn [op_ok] in HQ1.
-    apply cfg_trig_inv2; assumption.
+    apply cfg_trig_step2; assumption.
   - intros d s nsamp' npre' HI [HQ1 _]. cbn [op_ok] in HQ1. apply cfg_len_inv2; assumption.
   - apply fresh_inv2; assumption.
   - cbn. now rewrite Z.add_0_r.
@@ -870,13 +888,17 @@ Proof.
     rewrite Hpb in Hpb'. inversion Hpb'; subst d'' recs'.
     exists d', recs. split; [exact Hpb|]. split; [exact (conj B1 (conj B2 (conj B3 (conj B4 B5))))|]. split; assumption.
   - intros d s ts' [HI HA] [HQ1 _]. cbn [op_ok] in HQ1.
-    split; [apply cfg_trig_inv2; assumption|].
-    pose proof HI as [H1 H2 _ _ _ [HH0 _] _ _ _ _ _ _ _ _ _]. pose proof H1 as [_ Hp3 _ _ _ _ _].
+    split; [apply cfg_trig_step2; assumption|].
+    pose proof HI as [H1 H2 _ _ _ [HH0 _] _ _ _ _ _ _ _ _ _]. pose proof H1 as [_ Hp3 Hs1 Hmx _ _ _].
+    destruct (cfg_trig_cases d ts' Hp3 Hs1 Hmx HQ1) as [[He ->]|[He ->]]; cbn [fst snd]; [exact HA|].
     apply auto_epoch_start. cbn. unfold far_past. lia.
   - intros d s nsamp' npre' [HI HA] [HQ1 _]. cbn [op_ok] in HQ1.
     split; [apply cfg_len_inv2; assumption|].
     pose proof HI as [_ _ _ _ _ _ _ _ H9 _ _ _ _ _ _]. unfold s_A in H9.
-    unfold cfg_len. destruct (lengths_ok npre' nsamp'); cbn [fst]; apply auto_epoch_start; cbn [d_last]; lia.
+    unfold cfg_len. destruct (lengths_ok npre' nsamp'); cbn [fst]; [|exact HA].
+    unfold accepted_len. destruct ((nsamp' =? s_nsamp s) && (npre' =? s_npre s)).
+    + destruct HA as [A1 A2]. split; [exact A1|exact A2].
+    + apply auto_epoch_start; cbn [d_last]; lia.
   - split; [apply fresh_inv2; assumption|].
     rewrite init_as_epoch. apply lengths_ok_iff in Hl. apply auto_epoch_start. cbn. unfold far_past. lia.
   - cbn. now rewrite Z.add_0_r.
@@ -936,8 +958,9 @@ Proof.
       destruct (J_block s sg recs Ef HJ (HP _ (or_introl eq_refl))) as [HQ HJ'].
       destruct Hb as [<-|Hb]; [exact HQ|].
       eapply (IH _ _ Ea HJ'); [|exact Hb]. intros b' Hb'. apply HP. now right.
-    + destruct err; [discriminate|]. eapply (IH _ _ Ha); [apply J_epoch|exact HP|exact Hb].
-    + destruct err; (eapply (IH _ _ Ha); [apply J_epoch|exact HP|exact Hb]).
+    + destruct err; (eapply (IH _ _ Ha); [first [exact HJ|apply J_epoch]|exact HP|exact Hb]).
+    + destruct err; [eapply (IH _ _ Ha); [exact HJ|exact HP|exact Hb]|].
+      eapply (IH _ _ Ha); [|exact HP|exact Hb]. unfold accepted_len. destruct (_ && _); [exact HJ|apply J_epoch].
 Qed.
 End AnnotateInd.
 
